@@ -369,7 +369,17 @@ pub fn check(pid: &str, seed: u64) -> Value {
                 // fail on the pinned tree are evaluated here as well (a tree whose unit `components` can no longer be assembled is otherwise undecided for C02)
                 {
                     let mut aux = crate::preds2::Rep { evals: 0, nontrivial: 0, failures: vec![], samples: vec![] };
-                    crate::preds2::c06(&mut aux); crate::preds2::c06_special(&mut aux);
+                    crate::preds2::c06(&mut aux); crate::preds2::c06_special(&mut aux); crate::preds2::c06_refused_or_counted(&mut aux);
+                    // ... and from the productions the completion adds for ambient / solar energy: the sentences of the completion as well
+                    {
+                        let mut cm = crate::preds2::Rep { evals: 0, nontrivial: 0, failures: vec![], samples: vec![] };
+                        crate::preds2::c05(&mut cm); crate::preds2::c05_special(&mut cm);
+                        rep.evals += cm.evals;
+                        for f in cm.failures {
+                            let cl = f["clause"].as_str().unwrap_or("").to_string();
+                            if ["C05.exact_completion", "C05.declared_kept", "C05.nothing_else", "C05.special"].contains(&cl.as_str()) { let mut g = f.clone(); g["clause"] = json!(format!("C02.completion({})", cl)); rep.failures.push(g); }
+                        }
+                    }
                     rep.evals += aux.evals;
                     for f in aux.failures {
                         let cl = f["clause"].as_str().unwrap_or("").to_string();
@@ -381,7 +391,7 @@ pub fn check(pid: &str, seed: u64) -> Value {
                 }
                 ("the hand-written buildings, the seeded buildings over the whole vocabulary of the format (60 quick / 600 thorough), every seventh enumerated single-step building and the multi-step ones x the four regulatory factor sets and two user files whose step A/B, grid / non-EPB destination and per-source factors all differ (every set for the first 20 buildings, two of the six in turn for the others) x k_exp in {0, 0.3, 1} x both load-matching modes x area 1 or 37.5; compared: every per-carrier, per-service, per-source and whole-building figure, per step and per period, and RER, against an independent f64 evaluation of the equations (replay/src/refimpl.rs)", "every evaluation is a distinct (building, factor set, k_exp, mode) tuple; it is non-trivial when the building exports energy") }
             "C05" => { crate::preds2::c05(&mut rep); crate::preds2::c05_special(&mut rep); crate::preds2::c05_outputs(&mut rep); crate::preds2::c05_idempotent(&mut rep, seed); ("EAMBIENTE / TERMOSOLAR x two systems with ids from {-1,0,1} (also the same id twice) x use in {0, 2, (3,1)} x declared production in {none, 1, 5, (0,4)} x one use, two EPB uses, or an EPB and a non-EPB use per system; 2 steps; + hand-written files (interleaved systems, repeated demand lines, declared production carrying the comment of the automatic completion, outputs of either sign and of negative-id systems)", "every generated file has ambient / solar components") }
-            "C06" => { crate::preds2::c06(&mut rep); crate::preds2::c06_special(&mut rep); ("system 1 with services {CAL},{CAL,ACS},{CAL,REF},{CAL,ACS,REF} x outputs from {30,10,-10,(30,0),(10,0),(0,20)} x AUX in {4,(4,2),(0,3)} x with/without a second single-service system with AUX x electricity otherwise present or absent; + hand-written systems (several AUX lines, negative system ids, cogeneration-only systems)", "multi-service systems are the non-trivial cases") }
+            "C06" => { crate::preds2::c06(&mut rep); crate::preds2::c06_special(&mut rep); crate::preds2::c06_refused_or_counted(&mut rep); ("system 1 with services {CAL},{CAL,ACS},{CAL,REF},{CAL,ACS,REF} x outputs from {30,10,-10,(30,0),(10,0),(0,20)} x AUX in {4,(4,2),(0,3)} x with/without a second single-service system with AUX x electricity otherwise present or absent; + hand-written systems (several AUX lines, negative system ids, cogeneration-only systems)", "multi-service systems are the non-trivial cases") }
             "C16" => { crate::preds2::c16(&mut rep, seed); ("the repository's test_data component files, the special buildings of the other predicates, 21 hand-written edge shapes (AUX without consumption, DHW demand with biomass and PV, empty / short / non-numeric / non-finite fields, different lengths) and 60 seeded token- or line-level corruptions (drop, duplicate, swap, replace) of each of the first 20 files; each parsed, evaluated with the full and the stripped factor set in both load-matching modes and passed to the DHW renewable fraction, under catch_unwind; + long lines of unknown kind with multi-byte text at every byte offset 45..115, metadata accessors, value parsers and corrupted factor files", "an input is non-trivial when it parses and at least one evaluation succeeds") }
             "C10" => { crate::preds2::c10(&mut rep, seed); ("7 base files (every figure of the serialized result compared by path) x {6 random line orders, comments/blank/header/BOM/whitespace and their combinations, ids renumbered, id 0 omitted, one component split in two lines} + 60 repeated evaluations each", "every rewriting is non-trivial") }
             _ => { crate::preds2::c07(&mut rep, seed); ("factor files over every non-empty subset of {ELECTRICIDAD,GASNATURAL,BIOMASA,EAMBIENTE,RED1} with pairwise distinct marker values x 8 sets of user-given export factors x user RED1/RED2 {none, red1, both}; then up to 12 buildings over the carriers of the set (PV surplus, cogeneration with one or two fuels, non-EPB uses of electricity / ambient heat / solar thermal, outputs and auxiliaries) x (k_exp, load matching) in {(0,off),(0.5,on)}, each with the full and the stripped set; + hand-written buildings with the regulatory sets and component sets built in code with an unassigned auxiliary component", "every accepted factor file is non-trivial") }
@@ -667,6 +677,11 @@ pub fn check(pid: &str, seed: u64) -> Value {
         }
     }
     if pid == "C01" {
+        // "EPB use" of the electricity balance includes every declared kWh of auxiliary energy (the counted-in-balance sentences of the auxiliary assignment)
+        let mut aux = crate::preds2::Rep { evals: 0, nontrivial: 0, failures: vec![], samples: vec![] };
+        crate::preds2::c06_special(&mut aux); crate::preds2::c06_refused_or_counted(&mut aux);
+        evals += aux.evals;
+        for f in aux.failures { if f["clause"] == "C06.counted_in_balance" { let mut g = f.clone(); g["clause"] = json!("C01.epb_use_includes_auxiliaries(C06.counted_in_balance)"); failures.push(g); } }
         leaf::reset_noise();
         // components built in code with series of different lengths (the text parser refuses them): either no result or a result that still balances
         
